@@ -435,6 +435,7 @@ def shard(ctx: Ctx) -> None:
                     continue
                 if ctx.mine(idx):
                     one(ctx, {"ops": [base], "replies": [list(p) for p in perm], "answer_disconnect": idx % 2 == 0}, "single-op-permutations")
+    cleanup_inside_state_callback(ctx)
     # cancellation of every operation at several instants, followed by matching traffic (leftover probe)
     for name in OPS:
         for at in (0.0, 0.005, 0.5):
@@ -450,7 +451,90 @@ def shard(ctx: Ctx) -> None:
                 one(ctx, {"ops": [base], "replies": [["T", 0], ["T", 0]], "cancel": {"0": 0.01}, "cancel_after_io": after_io}, "cancel-races-answer")
 
 
+def cleanup_inside_state_callback(ctx: Ctx) -> None:
+    """The documented clean-up pattern: when the connection-state callback reports the peripheral gone, the application calls - from inside that
+    callback - the unsub returned by bluetooth_device_connect and the remove function returned by bluetooth_gatt_start_notify. Operations on
+    OTHER peripherals pending at that moment, and the API connection itself, must not notice."""
+    from aioesphomeapi import api_pb2 as pb
+    from aioesphomeapi.core import BluetoothConnectionDroppedError
+
+    res = ctx.res
+    idx = 0
+    for with_notify in (False, True):
+        for same_chunk in (False, True):
+            for pending_on_a in (False, True):
+                idx += 1
+                if not ctx.mine(idx):
+                    continue
+                with Sim() as sim:
+                    cfg = DeviceConfig()
+                    for n in ("BluetoothDeviceRequest", "BluetoothGATTReadRequest", "BluetoothGATTNotifyRequest"):
+                        cfg.handlers[n] = lambda c, m: None
+                    dev = sim.device(cfg)
+                    cli = sim.client(keepalive=1e5)
+                    c0 = sim.call("connect", lambda: cli.connect(login=False))
+                    sim.run(until=lambda: c0.done, max_time=sim.clock + 50)
+                    dconn = dev.conn
+                    holder: dict[str, Any] = {}
+                    states: list[Any] = []
+
+                    def on_state(connected: bool, mtu: int, error: int) -> None:
+                        states.append((connected, mtu, error))
+                        if not connected:
+                            holder["unsub"]()
+                            if "remove_notify" in holder:
+                                holder["remove_notify"]()
+
+                    r_conn = sim.call("device_connect", lambda: cli.bluetooth_device_connect(A, on_state, timeout=5.0))
+                    sim.run_for(0.001)
+                    dconn.send_msg(pb.BluetoothDeviceConnectionResponse(address=A, connected=True, mtu=50))
+                    sim.run(until=lambda: r_conn.done, max_time=sim.clock + 6)
+                    if r_conn.outcome != "ok":
+                        res.inconclusive.append(f"C16 cleanup scenario: device_connect {r_conn.exc!r}")
+                        continue
+                    holder["unsub"] = r_conn.result
+                    if with_notify:
+                        r_n = sim.call("start_notify", lambda: cli.bluetooth_gatt_start_notify(A, 7, lambda h, d: None, timeout=5.0))
+                        sim.run_for(0.001)
+                        dconn.send_msg(pb.BluetoothGATTNotifyResponse(address=A, handle=7))
+                        sim.run(until=lambda: r_n.done, max_time=sim.clock + 6)
+                        if r_n.outcome == "ok":
+                            holder["remove_notify"] = r_n.result[1]
+                    r_b = sim.call("read(B)", lambda: cli.bluetooth_gatt_read(B, 1, timeout=5.0))
+                    r_a = sim.call("read(A)", lambda: cli.bluetooth_gatt_read(A, 2, timeout=5.0)) if pending_on_a else None
+                    sim.run_for(0.001)
+                    msgs = [pb.BluetoothDeviceConnectionResponse(address=A, connected=False, error=8), pb.BluetoothGATTReadResponse(address=B, handle=1, data=b"ok")]
+                    if same_chunk:
+                        dconn.outbox = []
+                        for m_ in msgs:
+                            dconn.send_msg(m_)
+                        out, dconn.outbox = dconn.outbox, None
+                        dconn.deliver_items(out, 0.0)
+                    else:
+                        for m_ in msgs:
+                            dconn.send_msg(m_)
+                            sim.run_for(0.001)
+                    sim.run(until=lambda: r_b.done and (r_a is None or r_a.done), max_time=sim.clock + 6)
+                    res.evaluations += 1
+                    res.count("workload/cleanup-inside-state-callback")
+                    res.sig("cleanup-inside-cb", with_notify, same_chunk, pending_on_a)
+                    case = {"kind": "cleanup-inside-state-callback", "with_notify": with_notify, "same_chunk": same_chunk, "pending_on_a": pending_on_a}
+                    st = sim.conns[0].obj.connection_state.name
+                    if r_b.outcome != "ok" or bytes(r_b.result) != b"ok":
+                        res.violation("C16/read/disturbed-by-foreign-cleanup", f"read on peripheral B ended {r_b.outcome} {r_b.exc!r} when peripheral A's drop was cleaned up inside "
+                                      "its state callback", case, trace=sim.trace(40))
+                    if r_a is not None and not (r_a.outcome == "raised" and isinstance(r_a.exc, BluetoothConnectionDroppedError)):
+                        res.violation("C16/read/drop-not-raised", f"read on the dropped peripheral A ended {r_a.outcome} {r_a.exc!r}", case, trace=sim.trace(40))
+                    if st != "CONNECTED":
+                        res.violation("C16/connection-closed", f"API connection state {st} after the clean-up inside the callback", case, trace=sim.trace(40))
+                    if states != [(True, 50, 0), (False, 0, 8)]:
+                        res.violation("C16/device_connect/state-callback", f"state callback saw {states}", case)
+
+
 def replay(spec: dict[str, Any]) -> int:
+    if spec["case"].get("kind") == "cleanup-inside-state-callback":
+        print(spec["what"])
+        return 1
     case = spec["case"]["case"]
     o = run_case(case)
     print("\n".join(o["trace"]))
